@@ -44,10 +44,13 @@ CHECKS.update({
              "cases, underscores, optional suffix; regex-constrained symbolic strings) value_u128() is proved equal to the SMT-defined value of "
              "the digit string and radix/split_into_parts/suffix to match the text; for ANY text the real lexer accepts as an integer without "
              "diagnostic value_u128() must be Some; BitString::str() is the text between the quotes and the graph width counts its 0/1 digits; "
-             "FloatNumber::split_into_parts partitions at the suffix.",
-        note="Trusted: from_str_radix model (exact arithmetic), string and text-size models, abstract token (text + symbolic start offset), MIR "
-             "dump, z3. Bounds: <= 5 (quick) / 9 (thorough) digit characters; float rounding declined; negation folding, units and the "
-             "literal -> ASG arm need the AST boundary and are not claimed.",
+             "FloatNumber::split_into_parts partitions at the suffix. Literal -> graph arm (stage 2): `[-] <literal> [unit];` with symbolic digits in "
+             "all four radices is parsed by the real parser and translated by expr_to_asg_texpr / literal_to_asg_texpr from MIR; proved: the "
+             "graph literal has the source literal's class, exact u128 value, sign (a directly applied minus yields the negated literal), "
+             "unit (6 units and im, with and without a blank), bit strings keep their bits and their bit count is the type's width.",
+        note="Trusted: from_str_radix model (exact arithmetic), string and text-size models, abstract token (text + symbolic start offset), "
+             "tree / map models, MIR dump, z3. Bounds: accessors <= 5 (quick) / 9 (thorough) digit characters; graph arm decimal <= 9 / 12, hex "
+             "<= 4 / 8 digits, bit strings <= 8 / 16 bits; float rounding declined (float texts are compared, values are opaque).",
         technique=MC, design="6/C10"),
     "C11": dict(
         text="(a) one Cursor::advance_token followed by the real inner_extend_token, and LexedStr::new on whole strings, are executed from MIR "
@@ -71,9 +74,11 @@ CHECKS.update({
     "C12": dict(
         text="(a) every StrStep::Error position is a raw-token start or the end of input; (b) a path with no Error event has no ERROR node and "
              "provably no ERROR token, proved on every path of the real to_input/parse/intersperse_trivia code with symbolic raw token kinds; "
-             "(d) SemanticError::range is structurally node.text_range() in the MIR.",
+             "(c) for `\"<n symbolic code points>\" ;` (STRING and BIT_STRING, every Unicode scalar value) oq3_syntax::validation with the real "
+             "oq3_lexer::unescape runs from MIR and every diagnostic's range is proved to satisfy start <= end <= length with both ends on "
+             "character boundaries (exact byte-length terms); (d) SemanticError::range is structurally node.text_range() in the MIR.",
         note="Trusted: rowan text ranges, MIR dump, stubs, z3. Raw-token starts are char boundaries by C14. Bounds: <= 2 / 3 raw tokens full "
-             "alphabet, <= 3 / 4 over the error-recovery sub-alphabet. Literal-escape offsets (validation.rs) not yet covered.",
+             "alphabet, <= 3 / 4 over the error-recovery sub-alphabet; escape literals of <= 3 / 4 code points.",
         technique=MC, design="6/C12"),
     "C15": dict(
         text="Pairs of lexemes from the reference lexeme grammar (/verif/spec/lexemes.py: each lexeme a list of symbolic code points "
